@@ -15,6 +15,8 @@ from vlib import canon, Inconclusive
 QUERIES_MODULE = "MCMutableWorld"
 
 IMPLS_ALL = ["basicmutable", "overlay-basic", "overlay-mutable", "overlay-empty"]
+# quick tier: how many of the edge paths an implementation gets per scenario (None = all); a compact base is loaded per case
+DEFAULT_IMPL_CAPS = {"overlay-compact": 250}
 
 
 class Scenario:
@@ -145,6 +147,8 @@ def make_cases(ctx, sc, impls, sections, queries_json, keys, select=None, walks=
         for p in ipaths:
             if impl == "basicmutable" and any(e["ev"]["op"] == "snapshot" for e in p):
                 continue
+            if impl == "overlay-compact" and any(f["kind"] == "coll" for f in base.values()):
+                continue    # the compact format has no collections
             if impl == "tagsoverlay" and any(e["ev"]["op"] not in ("addtag", "snapshot") or not e["ev"].get("ok", True) for e in p):
                 continue
             secs = sections
@@ -176,7 +180,7 @@ def run_family(ctx, prop, scenarios, impls, sections, select=None, meta_rule="",
         cases, npaths = make_cases(ctx, sc, impls, sections, qs, keys, select=select, walks=walks,
                                    walk_len=ctx.pick(8, 14), cores=ctx.pick(1, 3), rng=rng,
                                    max_edge_paths=(max_paths or {}).get(n, ctx.pick(900, None)) if ctx.quick else None,
-                                   impl_caps=(impl_caps or {}).get(n) if ctx.quick else None,
+                                   impl_caps=dict(DEFAULT_IMPL_CAPS, **((impl_caps or {}).get(n) or {})) if ctx.quick else None,
                                    end_walks=(end_walks[0] if ctx.quick else end_walks[1]) if end_walks else None)
         total_edges += len(sc.edges)
         total_paths += npaths
